@@ -25,19 +25,20 @@ func (c01) Cases(tier string) int {
 
 func (c01) Thresholds(tier string) map[string]int64 {
 	return map[string]int64{
-		"options-in-if-in-options":     20,
-		"jump-out-of-nested-body":      50,
-		"if-body-ends-in-option-group": 20,
-		"stop-with-statements-left":    20,
-		"chosen-body-empty":            50,
-		"multi-reader":                 100,
-		"jump-by-expression":           50,
-		"if-taken-not-first":           50,
-		"if-none-taken":                50,
-		"garbage-arg-after-non-option": 1000,
-		"disabled-option-chosen":       20,
-		"deep-nesting>=8":              5,
-		"paths":                        3000,
+		"options-in-if-in-options":             20,
+		"jump-out-of-nested-body":              50,
+		"if-body-ends-in-option-group":         20,
+		"stop-with-statements-left":            20,
+		"chosen-body-empty":                    50,
+		"multi-reader":                         100,
+		"jump-by-expression":                   50,
+		"if-taken-not-first":                   50,
+		"if-none-taken":                        50,
+		"garbage-arg-after-non-option":         1000,
+		"disabled-option-chosen":               20,
+		"deep-nesting>=8":                      5,
+		"paths":                                3000,
+		"same-jump-statement-different-target": 300,
 	}
 }
 
@@ -118,6 +119,9 @@ func (c01) genProgram(c *core.Ctx) *hast.Program {
 		}
 		return p
 	}
+	if c.Idx%12 == 5 {
+		return routerProgram(r)
+	}
 	cfg := gen.DefaultFlow()
 	switch c.Idx % 4 {
 	case 1:
@@ -128,6 +132,55 @@ func (c01) genProgram(c *core.Ctx) *hast.Program {
 		cfg.MaxNodes, cfg.MaxReaders = 6, 4
 	}
 	return gen.Flow(r, cfg)
+}
+
+// routerProgram: one hub node whose single <<jump {$dest}>> statement is executed once per round with
+// a different target each time (and whose targets come back through plain jumps).
+func routerProgram(r *core.Rand) *hast.Program {
+	id := 0
+	next := func() int { id++; return id }
+	line := func(parts ...hast.Part) *hast.Stmt { return &hast.Stmt{K: hast.SLine, Parts: parts, ID: next()} }
+	set := func(v, op string, x *hast.Expr) *hast.Stmt {
+		return &hast.Stmt{K: hast.SSet, Var: v, Op: op, X: x, ID: next()}
+	}
+	k := r.Range(2, 4)
+	rounds := r.Range(3, 8)
+	titles := []string{"T1", "Tdeux", "T3", "Ｔ４"}[:k]
+	chain := &hast.Stmt{K: hast.SIf, ID: next()}
+	for j, t := range titles {
+		cond := hast.Bin("==", hast.Bin("%", hast.Var("i"), hast.Num(fmt.Sprint(k))), hast.Num(fmt.Sprint(j)))
+		chain.Clauses = append(chain.Clauses, &hast.Clause{Cond: cond, Body: []*hast.Stmt{set("dest", "=", hast.Str(t))}})
+	}
+	hub := &hast.Node{Title: "Hub", Body: []*hast.Stmt{
+		line(hast.Lit("hub "), hast.Inl(hast.Var("i"))),
+		{K: hast.SIf, ID: next(), Clauses: []*hast.Clause{{
+			Cond: hast.Bin(">", hast.Var("fuel"), hast.Num("0")),
+			Body: []*hast.Stmt{set("fuel", "-=", hast.Num("1")), set("i", "+=", hast.Num("1")), chain, {K: hast.SJump, X: hast.Var("dest"), ID: next()}},
+		}}},
+		line(hast.Lit("bye")),
+	}}
+	p := &hast.Program{Readers: 1, Nodes: []*hast.Node{
+		{Title: "Start", Body: []*hast.Stmt{set("fuel", "=", hast.Num(fmt.Sprint(rounds))), set("i", "=", hast.Num("0")), set("dest", "=", hast.Str("Hub")), {K: hast.SJump, Target: "Hub", ID: next()}}},
+		hub,
+	}}
+	for _, t := range titles {
+		body := []*hast.Stmt{line(hast.Lit("at "+t+" "), hast.Inl(hast.Call("visited_count", hast.Str("Hub"))))}
+		if r.Bool() {
+			body = append(body, &hast.Stmt{K: hast.SOptions, ID: next(), Options: []*hast.Option{
+				{Parts: []hast.Part{hast.Lit("back")}, Body: []*hast.Stmt{{K: hast.SJump, Target: "Hub", ID: next()}}},
+				{Parts: []hast.Part{hast.Lit("stay")}, Body: []*hast.Stmt{line(hast.Lit("stayed in " + t))}},
+			}})
+		}
+		body = append(body, &hast.Stmt{K: hast.SJump, Target: "Hub", ID: next()})
+		p.Nodes = append(p.Nodes, &hast.Node{Title: t, Body: body})
+	}
+	if r.Bool() {
+		p.Readers = 2
+		for _, n := range p.Nodes[2:] {
+			n.Reader = 1
+		}
+	}
+	return p
 }
 
 func (p c01) Run(c *core.Ctx) {
